@@ -9,11 +9,19 @@ same keys held, fires the same mapping again.  M counts again once it has been r
 again."
 
 FULL STATEMENT: the trace monitor `monC08` (Monitors.lean) with ghost obligations `(M, t, m, held, fresh)`
-accepts every step of every history of every layout — `C08_statement`.  It is FALSE of the model and
-of the code for layouts outside H2 (known finding D6: `C08_counterexample_D6`, kernel-checked).
+accepts every step of every history of every layout — `C08_statement`.
 
-  H2: every mapping with a non-empty absorbing list is key-producing (its last output key is a
-      non-modifier).
+PROVED IN FULL (`C08_full : C08_statement`) since the fix of finding D6.  D6 was: `absorbing_trigger` is ONE slot
+for the whole list `mapped_absorbed_keys`, and `add_new_mapping` ran `release_absorbed_keys` only
+`if produces_action_key(m)`; an absorbing mapping that is not key-producing, fired under a different trigger,
+overwrote the slot while the previously absorbed key stayed in the list, so re-pressing the NEW trigger exempted
+the OLD absorbed key too.  The fix runs `release_absorbed_keys` (and the consumption after it)
+`if should_absorb && (produces_action_key(m) || m.absorbing.len() > 0)`; invariant restored: every key in
+`mapped_absorbed_keys` was absorbed under the current `absorbing_trigger`.  `C08_d6_fixed` replays the former
+counterexample (`d6Layout`, `d6History`): the formerly violating press fires nothing, the monitor accepts.
+
+  H2 (NO LONGER A HYPOTHESIS since the fix of D6; still defined, reported by the driver request `H12`): every
+      mapping with a non-empty absorbing list is key-producing (its last output key is a non-modifier).
   H1 (NO LONGER A HYPOTHESIS since the fix of finding D7; still defined and reported by the driver request
       `H12`): a mapping that is not key-producing (its output is empty or ends in a modifier) outputs modifiers
       only — implied by "all output keys before the last are modifiers" (`H1_of_canonical`), and exactly the
@@ -21,20 +29,20 @@ of the code for layouts outside H2 (known finding D6: `C08_counterexample_D6`, k
       release absorbed keys" block only `if is_action_mapping(m)` (last output key a non-modifier); the fix
       enters it `if produces_action_key(m)` (any output key a non-modifier).  `C08_d7_fixed` replays the former
       counterexample: the monitor accepts, the absorbed key is released before Z goes down.
-All built-in layouts, README examples and unit-test layouts satisfy H1 ∧ H2.
+All built-in layouts, README examples and unit-test layouts satisfy H1 ∧ H2 (nothing changes for them).
 
-PROVED (`C08_partial'`): for EVERY layout satisfying H2, every history and every step, the monitor
-accepts — i.e. the full statement restricted to those layouts (`C08_partial`, `C08_partial_ii`: the same
-with the former signatures, H1 ignored).  Its three clauses:
-  (i)   `C08_partial_i` (H2): while an obligation (M, t) is pending, no accepted press of a key other
-        than t fires a mapping that has M in its trigger; via the invariant `OblInv`: a pending
-        obligation's M is still absorbed with absorbing_trigger = t, or is no longer an input key;
-  (ii)  `C08_partial_ii'` (H2): at every press of a non-modifier key by such a step M is not down on
+The three clauses, each for EVERY layout, every history, every step:
+  (i)   `C08_i`: while an obligation (M, t) is pending, no accepted press of a key other
+        than t fires a mapping that has M in its trigger; via the invariant `OblInv` (`Reachable8.oblInv'`): a
+        pending obligation's M is still absorbed with absorbing_trigger = t, or is no longer an input key;
+  (ii)  `C08_ii`: at every press of a non-modifier key by such a step M is not down on
         the virtual keyboard, unless a mapping in effect after the step outputs M;
-  (iii) `C08_partial_iii` (H2): re-pressing t before any other key with the same keys held fires the
-        same mapping; via the invariant `FreshInv`: while the held set is the one of the firing,
-        absorbing_trigger = t and the selection predicate of a re-press is the one of the firing.
-Outside H2 the monitor evaluates the clauses on every implementation transition.
+  (iii) `C08_iii`: re-pressing t before any other key with the same keys held fires the
+        same mapping; via the invariant `FreshInv` (`Reachable8.freshInv'`): while the held set is the one of the
+        firing, absorbing_trigger = t and the selection predicate of a re-press is the one of the firing.
+The former names (`C08_partial'`, `C08_partial`, `C08_partial_i`, `C08_partial_ii'`, `C08_partial_ii`,
+`C08_partial_iii`, `OblOk.step`, `OblInv.next`, `fire_suppNow`, `FreshInv.next`, `Reachable8.oblInv`,
+`Reachable8.freshInv`) are kept with their signatures as corollaries that ignore `h1` / `h2`.
 -/
 import TmVerif.Proofs.Inert
 
@@ -120,26 +128,25 @@ def OblInv (y : Sys8) : Prop := ∀ ob, ob ∈ y.obls → OblOk y.x.s ob
 /-! ### what an accepted press does to the auxiliary fields -/
 
 /-- (restated with the fix of D7: the block of phase 2 runs when `producesActionKey m`, it was
-`isActionMapping m`) -/
+`isActionMapping m`; restated with the fix of D6: `release_absorbed_keys` runs iff `absorbsNow s k m`, i.e.
+`should_absorb` and the mapping produces an action key OR is absorbing) -/
 theorem addPhase2_aux_fields {extra : List Key} (s : State) (k : Key) (m : Mapping) (h : IInv extra s) :
-    (producesActionKey m = true ∧ shouldAbsorb s k = true ∧
+    (absorbsNow s k m = true ∧ shouldAbsorb s k = true ∧
       (addPhase2 s k m).1.absorbed = [] ∧ (addPhase2 s k m).1.absTrig = none ∧
       (∀ x, x ∈ (addPhase2 s k m).1.inp ↔ x ∈ s.inp ∧ x ∉ s.absorbed)) ∨
-    (¬(producesActionKey m = true ∧ shouldAbsorb s k = true) ∧
+    (absorbsNow s k m = false ∧
       (addPhase2 s k m).1.absorbed = s.absorbed ∧ (addPhase2 s k m).1.absTrig = s.absTrig ∧
       (addPhase2 s k m).1.inp = s.inp) := by
-  cases ha : producesActionKey m
-  · right; rw [addPhase2_nonaction s k m ha]; exact ⟨by simp, rfl, rfl, rfl⟩
-  · have f := releaseActionMappings_frame s
-    cases hb : shouldAbsorb s k
-    · right; rw [addPhase2_noabsorb s k m ha hb]; exact ⟨by simp, f.2.2.1, f.2.2.2.1, f.1⟩
-    · left
-      rw [addPhase2_absorb s k m ha hb]
-      have q := releaseAbsorbedKeys_spec _ (releaseActionMappings_spec h).1
-      refine ⟨rfl, rfl, q.2.2.1, q.2.2.2.1, ?_⟩
-      intro x
-      show x ∈ (releaseAbsorbedKeys (releaseActionMappings s).1).1.inp ↔ _
-      rw [q.2.2.2.2.2.1 x, f.1, f.2.2.1]
+  have f := ramIf_frame m s
+  cases hb : absorbsNow s k m
+  · right; rw [addPhase2_skip s k m hb]; exact ⟨rfl, f.2.2.1, f.2.2.2.1, f.1⟩
+  · left
+    rw [addPhase2_run s k m hb]
+    have q := releaseAbsorbedKeys_spec _ (ramIf_spec m h).1
+    refine ⟨rfl, ((absorbsNow_true_iff s k m).mp hb).1, q.2.2.1, q.2.2.2.1, ?_⟩
+    intro x
+    show x ∈ (releaseAbsorbedKeys (ramIf m s).1).1.inp ↔ _
+    rw [q.2.2.2.2.2.1 x, f.1, f.2.2.1]
 
 theorem mem_addAbsorbed_left (a b : List Key) (x : Key) (h : x ∈ a) : x ∈ addAbsorbed a b := by
   induction b generalizing a with
@@ -174,8 +181,9 @@ theorem fired_not_requiring {L : Layout} {s : State} {k : Key} {fm : Mapping} (h
     · exact hn h1.1
   · exact hMk h1
 
-/-- preservation of one obligation's invariant by a step about another key, in a layout satisfying H2 -/
-theorem OblOk.step {L : Layout} (h2 : H2 L) {P : List Key} {s : State} (hinv : Inv L P s) (ob : Obl)
+/-- preservation of one obligation's invariant by a step about another key — EVERY layout (since the fix of D6;
+it needed H2 before) -/
+theorem OblOk.step' {L : Layout} {P : List Key} {s : State} (hinv : Inv L P s) (ob : Obl)
     (hok : OblOk s ob) (e : Event) (hne : ob.M ≠ e.key) :
     OblOk (TmVerif.step L s e).1 ob ∨
       -- unless this very step fires a mapping that absorbs M again (then a new obligation replaces it)
@@ -231,14 +239,13 @@ theorem OblOk.step {L : Layout} (h2 : H2 L) {P : List Key} {s : State} (hinv : I
               refine ⟨by rw [ff.2.2.1, habs2]; exact mem_addAbsorbed_left _ _ _ ha, ?_⟩
               rw [ff.2.2.2, htrig2]
               by_cases hmm : fm.absorbing.length > 0
-              · -- an absorbing mapping fired: under H2 it is key-producing, so (as release_absorbed_keys did
-                -- not run) the trigger must be the pending one
+              · -- an absorbing mapping fired and release_absorbed_keys did not run: since the fix of D6 that
+                -- happens only if `should_absorb` is false, i.e. the trigger is the pending one
                 have hne' : fm.absorbing ≠ [] := by intro e; simp [e] at hmm
-                have hact := h2 fm hfmL hne'
                 have hsa : shouldAbsorb (afterConsume (pressPrep s k) fm) k = false := by
-                  cases hh : shouldAbsorb (afterConsume (pressPrep s k) fm) k with
-                  | false => rfl
-                  | true => exact absurd ⟨producesActionKey_of_isActionMapping fm hact, hh⟩ hnot
+                  rcases (absorbsNow_false_iff _ _ _).mp hnot with hh | hh
+                  · exact hh
+                  · exact absurd hh.2 hne'
                 have : (afterConsume (pressPrep s k) fm).absTrig = some k := by
                   simp only [shouldAbsorb] at hsa
                   cases hat : (afterConsume (pressPrep s k) fm).absTrig with
@@ -287,6 +294,14 @@ theorem OblOk.step {L : Layout} (h2 : H2 L) {P : List Key} {s : State} (hinv : I
             · exact hMk hx
 
 
+/-- `OblOk.step'` with its former signature: the hypothesis H2 is no longer used (fix of D6) -/
+theorem OblOk.step {L : Layout} (h2 : H2 L) {P : List Key} {s : State} (hinv : Inv L P s) (ob : Obl)
+    (hok : OblOk s ob) (e : Event) (hne : ob.M ≠ e.key) :
+    OblOk (TmVerif.step L s e).1 ob ∨
+      (∃ k fm, e = Event.pressed k ∧ k ∉ s.inp ∧ findMapping L s k = some fm ∧ ob.M ∈ fm.absorbing) :=
+  have _ := h2
+  OblOk.step' hinv ob hok e hne
+
 /-! ### the invariant over histories and clause (i) -/
 
 theorem mem_nextObls {o : Obs} {obls : List Obl} {ob : Obl} (h : ob ∈ nextObls o obls) :
@@ -327,7 +342,7 @@ theorem mem_nextObls {o : Obs} {obls : List Obl} {ob : Obl} (h : ob ∈ nextObls
           subst heq
           exact ⟨k, fm, rfl, rfl, rfl, hM, rfl⟩
 
-theorem OblInv.next {L : Layout} (h2 : H2 L) {y : Sys8} (hy : Reachable8 L y) (hi : OblInv y) (e : Event) :
+theorem OblInv.next' {L : Layout} {y : Sys8} (hy : Reachable8 L y) (hi : OblInv y) (e : Event) :
     OblInv (y.next L e) := by
   intro ob hob
   have hx := hy.reachableEv.reachable
@@ -339,7 +354,7 @@ theorem OblInv.next {L : Layout} (h2 : H2 L) {y : Sys8} (hy : Reachable8 L y) (h
     have hok : OblOk y.x.s ob := by
       unfold OblOk at hok0 ⊢; rw [← hM, ← ht]; exact hok0
     have hne' : ob.M ≠ e.key := by rw [← hM]; simpa [Sys.obs] using hne
-    rcases OblOk.step h2 hs.inv ob hok e hne' with h1 | ⟨k, fm, he, hk, hf, hab⟩
+    rcases OblOk.step' hs.inv ob hok e hne' with h1 | ⟨k, fm, he, hk, hf, hab⟩
     · exact h1
     · -- the step fires a mapping absorbing M again: impossible for a surviving old obligation
       exfalso
@@ -364,7 +379,14 @@ theorem OblInv.next {L : Layout} (h2 : H2 L) {y : Sys8} (hy : Reachable8 L y) (h
       | cons a l => simp
     simp [this]
 
-theorem Reachable8.oblInv {L : Layout} (h2 : H2 L) {y : Sys8} (hy : Reachable8 L y) : OblInv y := by
+/-- `OblInv.next'` with its former signature (H2 no longer used) -/
+theorem OblInv.next {L : Layout} (h2 : H2 L) {y : Sys8} (hy : Reachable8 L y) (hi : OblInv y) (e : Event) :
+    OblInv (y.next L e) :=
+  have _ := h2
+  OblInv.next' hy hi e
+
+/-- the invariant of the pending obligations holds in every reachable state of EVERY layout (fix of D6) -/
+theorem Reachable8.oblInv' {L : Layout} {y : Sys8} (hy : Reachable8 L y) : OblInv y := by
   obtain ⟨evs, rfl⟩ := hy
   suffices ∀ (z : Sys8), Reachable8 L z → OblInv z → OblInv (Sys8.run L z evs) from
     this Sys8.init ⟨[], rfl⟩ (by intro ob hob; simp [Sys8.init] at hob)
@@ -376,22 +398,34 @@ theorem Reachable8.oblInv {L : Layout} (h2 : H2 L) {y : Sys8} (hy : Reachable8 L
     have hz' : Reachable8 L (z.next L e) := by
       obtain ⟨evs0, rfl⟩ := hz
       exact ⟨evs0 ++ [e], by simp [Sys8.run, List.foldl_append]⟩
-    exact ih _ hz' (OblInv.next h2 hz hi e)
+    exact ih _ hz' (OblInv.next' hz hi e)
 
-/-- C08 clause (i), for every layout satisfying H2, every history, every pending obligation (M, t):
+/-- `Reachable8.oblInv'` with its former signature (H2 no longer used) -/
+theorem Reachable8.oblInv {L : Layout} (h2 : H2 L) {y : Sys8} (hy : Reachable8 L y) : OblInv y :=
+  have _ := h2
+  hy.oblInv'
+
+/-- C08 clause (i), for EVERY layout (since the fix of D6), every history, every pending obligation (M, t):
 an accepted press of a key other than t (and other than M) never fires a mapping that has M in its
 trigger -/
-theorem C08_partial_i (L : Layout) (h2 : H2 L) (y : Sys8) (hy : Reachable8 L y) (ob : Obl) (hob : ob ∈ y.obls)
+theorem C08_i (L : Layout) (y : Sys8) (hy : Reachable8 L y) (ob : Obl) (hob : ob ∈ y.obls)
     (k : Key) (hk : k ∉ y.x.s.inp) (hkt : k ≠ ob.t) (hkM : k ≠ ob.M)
     (fm : Mapping) (hf : findMapping L y.x.s k = some fm) : ob.M ∉ fm.frm := by
-  have hok := hy.oblInv h2 ob hob
+  have hok := hy.oblInv' ob hob
   apply fired_not_requiring hf ob.M (fun e => hkM e.symm)
   rcases hok with ⟨ha, ht⟩ | hn
   · exact Or.inl ⟨ha, by rw [ht]; intro e; exact hkt (Option.some.inj e).symm⟩
   · exact Or.inr hn
 
+/-- `C08_i` with the former name and signature (H2 no longer used) -/
+theorem C08_partial_i (L : Layout) (h2 : H2 L) (y : Sys8) (hy : Reachable8 L y) (ob : Obl) (hob : ob ∈ y.obls)
+    (k : Key) (hk : k ∉ y.x.s.inp) (hkt : k ≠ ob.t) (hkM : k ≠ ob.M)
+    (fm : Mapping) (hf : findMapping L y.x.s k = some fm) : ob.M ∉ fm.frm :=
+  have _ := h2
+  C08_i L y hy ob hob k hk hkt hkM fm hf
+
 /-- monitor form of clause (i) -/
-theorem C08_partial_i_monitor (L : Layout) (h2 : H2 L) (y : Sys8) (hy : Reachable8 L y) (ob : Obl) (hob : ob ∈ y.obls)
+theorem C08_i_monitor (L : Layout) (y : Sys8) (hy : Reachable8 L y) (ob : Obl) (hob : ob ∈ y.obls)
     (k : Key) (hk : k ∉ y.x.s.inp) (hkt : k ≠ ob.t) (hkM : k ≠ ob.M) :
     c08i (y.x.obs L (Event.pressed k)) ob = true := by
   unfold c08i
@@ -399,8 +433,14 @@ theorem C08_partial_i_monitor (L : Layout) (h2 : H2 L) (y : Sys8) (hy : Reachabl
   cases hf : findMapping L y.x.s k with
   | none => rfl
   | some fm =>
-    have := C08_partial_i L h2 y hy ob hob k hk hkt hkM fm hf
+    have := C08_i L y hy ob hob k hk hkt hkM fm hf
     simpa using this
+
+theorem C08_partial_i_monitor (L : Layout) (h2 : H2 L) (y : Sys8) (hy : Reachable8 L y) (ob : Obl) (hob : ob ∈ y.obls)
+    (k : Key) (hk : k ∉ y.x.s.inp) (hkt : k ≠ ob.t) (hkM : k ≠ ob.M) :
+    c08i (y.x.obs L (Event.pressed k)) ob = true :=
+  have _ := h2
+  C08_i_monitor L y hy ob hob k hk hkt hkM
 
 /-! ### clause (ii) under H2 (since the fix of D7; it needed H1 ∧ H2 before) -/
 
@@ -494,18 +534,18 @@ theorem pressAll_noM {extra : List Key} (M : Key) (outM : Bool) (s : State) (ks 
       · exact hks (by simp [h2])
     · intro hm; exact hks (by simp [hm])
 
-/-- C08 clause (ii), for every layout satisfying H2, every history, every pending obligation (M, t):
+/-- C08 clause (ii), for EVERY layout (since the fix of D6), every history, every pending obligation (M, t):
 in a step about another key, whenever a non-modifier key is pressed on the virtual keyboard, M is not
 down there — unless a mapping in effect after the step outputs M.
 (Since the fix of D7 without H1: a fired mapping that outputs ANY non-modifier key runs the
 "release action mappings / release absorbed keys" block, so an absorbed M has been released as input before
 the press loop; a fired mapping that outputs modifiers only presses modifiers only.) -/
-theorem C08_partial_ii' (L : Layout) (h2 : H2 L) (y : Sys8) (hy : Reachable8 L y) (ob : Obl) (hob : ob ∈ y.obls)
+theorem C08_ii (L : Layout) (y : Sys8) (hy : Reachable8 L y) (ob : Obl) (hob : ob ∈ y.obls)
     (k : Key) (hk : k ∉ y.x.s.inp) (hkt : k ≠ ob.t) (hkM : k ≠ ob.M) :
     c08ii (y.x.obs L (Event.pressed k)) ob = true := by
   have hx := hy.reachableEv.reachable
   have hs := hx.sinv
-  have hok := hy.oblInv h2 ob hob
+  have hok := hy.oblInv' ob hob
   have h0 := pressPrep_iinv k hs.inv.i
   have hV0 : ∀ z, z ∈ y.x.V ↔ z ∈ held (pressPrep y.x.s k) := fun z => hs.vheld z
   unfold c08ii
@@ -569,7 +609,9 @@ theorem C08_partial_ii' (L : Layout) (h2 : H2 L) (y : Sys8) (hy : Reachable8 L y
         rcases hok0 with ⟨ha, hsa⟩ | hn
         · rcases addPhase2_aux_fields (afterConsume (pressPrep y.x.s k) fm) k fm c1 with ⟨_, _, _, _, hinp⟩ | ⟨hnot, _⟩
           · intro hx; exact ((hinp ob.M).mp hx).2 ha
-          · exact absurd ⟨hact, hsa⟩ hnot
+          · have hrun : absorbsNow (afterConsume (pressPrep y.x.s k) fm) k fm = true :=
+              (absorbsNow_true_iff _ _ _).mpr ⟨hsa, Or.inl hact⟩
+            rw [hrun] at hnot; cases hnot
         · exact fun hx => hn (d2.inpSub ob.M hx)
       apply pressAll_noM ob.M outM _ fm.to _ d1 (fun _ h => h) hV2
       · intro hm
@@ -616,6 +658,13 @@ theorem C08_partial_ii' (L : Layout) (h2 : H2 L) (y : Sys8) (hy : Reachable8 L y
             · simp at h3
             · simp only [List.any_eq_true]; exact ⟨m', hm', by simpa using h3⟩
         · left; simpa using hm
+
+/-- `C08_ii` with the former name and signature: the hypothesis H2 is no longer used (fix of D6) -/
+theorem C08_partial_ii' (L : Layout) (h2 : H2 L) (y : Sys8) (hy : Reachable8 L y) (ob : Obl) (hob : ob ∈ y.obls)
+    (k : Key) (hk : k ∉ y.x.s.inp) (hkt : k ≠ ob.t) (hkM : k ≠ ob.M) :
+    c08ii (y.x.obs L (Event.pressed k)) ob = true :=
+  have _ := h2
+  C08_ii L y hy ob hob k hk hkt hkM
 
 /-- `C08_partial_ii'` with its former signature: the hypothesis H1 is no longer used (fix of D7) -/
 theorem C08_partial_ii (L : Layout) (h1 : H1 L) (h2 : H2 L) (y : Sys8) (hy : Reachable8 L y) (ob : Obl) (hob : ob ∈ y.obls)
@@ -719,9 +768,9 @@ theorem mem_nextObls_fresh {o : Obs} {obls : List Obl} {ob : Obl} (h : ob ∈ ne
           subst heq
           exact ⟨k, fm, rfl, rfl, rfl, hM, rfl, rfl, rfl⟩
 
-/-- what a firing of an absorbing mapping leaves behind, in a layout satisfying H2: `absorbing_trigger`
-is the pressed key and a re-press would select the same mapping -/
-theorem fire_suppNow {L : Layout} (h2 : H2 L) {P : List Key} {s : State} (hinv : Inv L P s) {k : Key} {fm : Mapping}
+/-- what a firing of an absorbing mapping leaves behind, in EVERY layout (since the fix of D6; it needed H2
+before): `absorbing_trigger` is the pressed key and a re-press would select the same mapping -/
+theorem fire_suppNow' {L : Layout} {P : List Key} {s : State} (hinv : Inv L P s) {k : Key} {fm : Mapping}
     (hf : findMapping L s k = some fm) (hab : fm.absorbing ≠ []) :
     (newlyPress L s k).1.absTrig = some k ∧ suppNow L (newlyPress L s k).1 k = some fm := by
   have h0 := pressPrep_iinv k hinv.i
@@ -730,8 +779,6 @@ theorem fire_suppNow {L : Layout} (h2 : H2 L) {P : List Key} {s : State} (hinv :
   have ff := finishFire_fields (addPhase2 (afterConsume (pressPrep s k) fm) k fm).1 k fm
   have c1 := (consume_spec (pressPrep s k) fm h0).1
   have p2 := addPhase2_aux_fields (afterConsume (pressPrep s k) fm) k fm c1
-  have hfmL := (findMapping_some hf).1
-  have hact := h2 fm hfmL hab
   have hlen : fm.absorbing.length > 0 := by
     cases hh : fm.absorbing with
     | nil => exact absurd hh hab
@@ -755,13 +802,24 @@ theorem fire_suppNow {L : Layout} (h2 : H2 L) {P : List Key} {s : State} (hinv :
   · have hsh : shouldAbsorb (pressPrep s k) k = false := by
       cases hh : shouldAbsorb (pressPrep s k) k with
       | false => rfl
-      | true => rw [← hsa] at hh; exact absurd ⟨producesActionKey_of_isActionMapping fm hact, hh⟩ hnot
+      | true =>
+        rw [← hsa] at hh
+        have hrun : absorbsNow (afterConsume (pressPrep s k) fm) k fm = true :=
+          (absorbsNow_true_iff _ _ _).mpr ⟨hh, Or.inr hab⟩
+        rw [hrun] at hnot; cases hnot
     simp only [hsh, Bool.false_eq_true, if_false, List.mem_append, List.mem_singleton, hinp2]
     have e1 : (afterConsume (pressPrep s k) fm).inp = (pressPrep s k).inp := rfl
     rw [e1]
     simp
 
-theorem FreshInv.next {L : Layout} (h2 : H2 L) {y : Sys8} (hy : Reachable8 L y) (hi : FreshInv L y) (e : Event) :
+/-- `fire_suppNow'` with its former signature (H2 no longer used) -/
+theorem fire_suppNow {L : Layout} (h2 : H2 L) {P : List Key} {s : State} (hinv : Inv L P s) {k : Key} {fm : Mapping}
+    (hf : findMapping L s k = some fm) (hab : fm.absorbing ≠ []) :
+    (newlyPress L s k).1.absTrig = some k ∧ suppNow L (newlyPress L s k).1 k = some fm :=
+  have _ := h2
+  fire_suppNow' hinv hf hab
+
+theorem FreshInv.next' {L : Layout} {y : Sys8} (hy : Reachable8 L y) (hi : FreshInv L y) (e : Event) :
     FreshInv L (y.next L e) := by
   intro ob hob hfr
   have hx := hy.reachableEv.reachable
@@ -845,7 +903,7 @@ theorem FreshInv.next {L : Layout} (h2 : H2 L) {y : Sys8} (hy : Reachable8 L y) 
     have hk : k ∉ y.x.s.inp := by simpa [Obs.accepted, Sys.obs] using hacc
     have hf : findMapping L y.x.s k = some fm := by rw [← fired_eq hs k hk]; exact hfired
     have hne : fm.absorbing ≠ [] := by intro e; rw [e] at hab; simp at hab
-    have fs := fire_suppNow h2 hs.inv hf hne
+    have fs := fire_suppNow' hs.inv hf hne
     have hP'eq : (y.x.obs L (Event.pressed k)).P' = applyEv y.x.P (Event.pressed k) := rfl
     simp only [Sys.next, step_pressed_accepted L y.x.s k hk]
     refine ⟨?_, ?_, by rw [hmfm]; exact hab, ?_⟩
@@ -855,7 +913,14 @@ theorem FreshInv.next {L : Layout} (h2 : H2 L) {y : Sys8} (hy : Reachable8 L y) 
       · simp
     · intro _; rw [htk, hmfm]; exact fs
 
-theorem Reachable8.freshInv {L : Layout} (h2 : H2 L) {y : Sys8} (hy : Reachable8 L y) : FreshInv L y := by
+/-- `FreshInv.next'` with its former signature (H2 no longer used) -/
+theorem FreshInv.next {L : Layout} (h2 : H2 L) {y : Sys8} (hy : Reachable8 L y) (hi : FreshInv L y) (e : Event) :
+    FreshInv L (y.next L e) :=
+  have _ := h2
+  FreshInv.next' hy hi e
+
+/-- the invariant of the fresh obligations holds in every reachable state of EVERY layout (fix of D6) -/
+theorem Reachable8.freshInv' {L : Layout} {y : Sys8} (hy : Reachable8 L y) : FreshInv L y := by
   obtain ⟨evs, rfl⟩ := hy
   suffices ∀ (z : Sys8), Reachable8 L z → FreshInv L z → FreshInv L (Sys8.run L z evs) from
     this Sys8.init ⟨[], rfl⟩ (by intro ob hob; simp [Sys8.init] at hob)
@@ -867,17 +932,22 @@ theorem Reachable8.freshInv {L : Layout} (h2 : H2 L) {y : Sys8} (hy : Reachable8
     have hz' : Reachable8 L (z.next L e) := by
       obtain ⟨evs0, rfl⟩ := hz
       exact ⟨evs0 ++ [e], by simp [Sys8.run, List.foldl_append]⟩
-    exact ih _ hz' (FreshInv.next h2 hz hi e)
+    exact ih _ hz' (FreshInv.next' hz hi e)
 
-/-- C08 clause (iii), for every layout satisfying H2, every history, every pending obligation
+/-- `Reachable8.freshInv'` with its former signature (H2 no longer used) -/
+theorem Reachable8.freshInv {L : Layout} (h2 : H2 L) {y : Sys8} (hy : Reachable8 L y) : FreshInv L y :=
+  have _ := h2
+  hy.freshInv'
+
+/-- C08 clause (iii), for EVERY layout (since the fix of D6), every history, every pending obligation
 (M, t, m, held) that is still fresh (no other key pressed since m fired): an accepted re-press of t with
 the same keys held fires the same mapping m again -/
-theorem C08_partial_iii (L : Layout) (h2 : H2 L) (y : Sys8) (hy : Reachable8 L y) (ob : Obl) (hob : ob ∈ y.obls)
+theorem C08_iii (L : Layout) (y : Sys8) (hy : Reachable8 L y) (ob : Obl) (hob : ob ∈ y.obls)
     (hfr : ob.fresh = true) (hk : ob.t ∉ y.x.s.inp)
     (hsame : sameSet (y.x.obs L (Event.pressed ob.t)).P' ob.held = true) :
     c08iii (y.x.obs L (Event.pressed ob.t)) ob = true := by
   have hs := hy.reachableEv.reachable.sinv
-  obtain ⟨_, _, _, hg⟩ := hy.freshInv h2 ob hob hfr
+  obtain ⟨_, _, _, hg⟩ := hy.freshInv' ob hob hfr
   have hgd : ∀ x, x ∈ ob.held → x ∈ y.x.P ∨ x = ob.t := by
     intro x hx
     simp only [sameSet, Bool.and_eq_true, List.all_eq_true, List.contains_eq_mem, decide_eq_true_eq] at hsame
@@ -893,12 +963,20 @@ theorem C08_partial_iii (L : Layout) (h2 : H2 L) (y : Sys8) (hy : Reachable8 L y
   rw [fired_eq hs ob.t hk, findMapping_of_absTrig L y.x.s ob.t hat, hsn]
   simp
 
-/-! ### the full statement restricted to layouts satisfying H2 -/
+/-- `C08_iii` with the former name and signature (H2 no longer used) -/
+theorem C08_partial_iii (L : Layout) (h2 : H2 L) (y : Sys8) (hy : Reachable8 L y) (ob : Obl) (hob : ob ∈ y.obls)
+    (hfr : ob.fresh = true) (hk : ob.t ∉ y.x.s.inp)
+    (hsame : sameSet (y.x.obs L (Event.pressed ob.t)).P' ob.held = true) :
+    c08iii (y.x.obs L (Event.pressed ob.t)) ob = true :=
+  have _ := h2
+  C08_iii L y hy ob hob hfr hk hsame
 
-/-- C08 for every layout satisfying H2: the trace monitor accepts every step of every history
-(since the fix of D7 the hypothesis H1 is gone) -/
-theorem C08_partial' (L : Layout) (h2 : H2 L) (y : Sys8) (hy : Reachable8 L y) (e : Event) :
-    monC08 (y.x.obs L e) y.obls = [] := by
+/-! ### the full statement: every layout -/
+
+/-- C08 for EVERY layout: the trace monitor accepts every step of every history
+(since the fix of D7 the hypothesis H1 is gone, since the fix of D6 the hypothesis H2 as well) -/
+theorem C08_full : C08_statement := by
+  intro L y hy e
   unfold monC08
   cases e with
   | released k => rfl
@@ -921,12 +999,18 @@ theorem C08_partial' (L : Layout) (h2 : H2 L) (y : Sys8) (hy : Reachable8 L y) (
           simp only [if_true]
           simp only [Bool.and_eq_true] at hc
           subst hkt
-          rw [C08_partial_iii L h2 y hy ob hob hc.1 hk hc.2]
+          rw [C08_iii L y hy ob hob hc.1 hk hc.2]
           rfl
       · have hkt' : k ≠ ob.t := fun e => hkt e.symm
         rw [if_pos hkt]
-        simp only [C08_partial_i_monitor L h2 y hy ob hob k hk hkt' hkM,
-          C08_partial_ii' L h2 y hy ob hob k hk hkt' hkM, if_true, List.append_nil]
+        simp only [C08_i_monitor L y hy ob hob k hk hkt' hkM,
+          C08_ii L y hy ob hob k hk hkt' hkM, if_true, List.append_nil]
+
+/-- `C08_full` restricted to layouts satisfying H2 (former name and signature; H2 is no longer used) -/
+theorem C08_partial' (L : Layout) (h2 : H2 L) (y : Sys8) (hy : Reachable8 L y) (e : Event) :
+    monC08 (y.x.obs L e) y.obls = [] :=
+  have _ := h2
+  C08_full L y hy e
 
 /-- `C08_partial'` with its former signature: the hypothesis H1 is no longer used (fix of D7) -/
 theorem C08_partial (L : Layout) (h1 : H1 L) (h2 : H2 L) (y : Sys8) (hy : Reachable8 L y) (e : Event) :
@@ -1033,7 +1117,7 @@ example :
     findMapping L y.x.s 48 = some ⟨[42, 48], [42, 48], Repeat.normal, [42]⟩ := by
   decide
 
-/-! ### the full statement is false outside H2 (known finding D6); former finding D7 is fixed -/
+/-! ### former findings D6 and D7 are fixed: regressions -/
 
 def d6Layout : Layout :=
   [⟨[42, 29], [44, 45], Repeat.normal, []⟩, ⟨[42, 46], [29], Repeat.normal, [42]⟩, ⟨[30, 29], [], Repeat.normal, [30]⟩]
@@ -1042,13 +1126,39 @@ def d6History : List Event :=
   [Event.pressed 42, Event.pressed 30, Event.pressed 46, Event.released 46, Event.pressed 29, Event.released 29,
    Event.released 30]
 
-/-- D6: after LEFTSHIFT was absorbed by the `C` chord and never released, re-pressing LEFTCTRL (the latest
-absorbing trigger) fires `[LEFTSHIFT, LEFTCTRL] → [Z, X]`, a mapping requiring the absorbed LEFTSHIFT -/
-theorem C08_counterexample_D6 :
+/-- Regression for former finding D6 (FIXED in `add_new_mapping`: `release_absorbed_keys` runs
+`if should_absorb && (produces_action_key(m) || m.absorbing.len() > 0)`).  The layout is outside H2
+(`[A, LEFTCTRL] → []` absorbs A and is not key-producing).  Before the fix: LEFTSHIFT was absorbed by the `C` chord
+(trigger C) and never released; the press of LEFTCTRL fired `[A, LEFTCTRL] → [] absorbing A`, which overwrote
+`absorbing_trigger` with LEFTCTRL while LEFTSHIFT stayed in `mapped_absorbed_keys`; re-pressing LEFTCTRL — the press
+below — then exempted LEFTSHIFT too and fired `[LEFTSHIFT, LEFTCTRL] → [Z, X]` (the monitor returned `["C08:D6"]`).
+Now the firing of `[A, LEFTCTRL] → []` lets go of LEFTSHIFT first (it is no longer an input key, the only absorbed key
+is A, absorbed under the current trigger LEFTCTRL): the same press fires nothing, LEFTCTRL is passed through, and the
+monitor accepts. -/
+theorem C08_d6_fixed :
     let y := Sys8.run d6Layout Sys8.init d6History
+    layoutH2 d6Layout = false ∧
     (y.obls.map fun ob => (ob.M, ob.t)) = [(42, 46)] ∧
-    monC08 (y.x.obs d6Layout (Event.pressed 29)) y.obls = ["C08:D6"] ∧
-    findMapping d6Layout y.x.s 29 = some ⟨[42, 29], [44, 45], Repeat.normal, []⟩ := by
+    monC08 (y.x.obs d6Layout (Event.pressed 29)) y.obls = [] ∧
+    findMapping d6Layout y.x.s 29 = none ∧
+    (step d6Layout y.x.s (Event.pressed 29)).2.events = [Event.pressed 29] ∧
+    -- the state right after the first press of LEFTCTRL (which fires `[A, LEFTCTRL] → [] absorbing A`):
+    (let z := Sys8.run d6Layout Sys8.init (d6History.take 5)
+     z.x.s.absorbed = [30] ∧ z.x.s.absTrig = some 29 ∧ 42 ∉ z.x.s.inp) := by
+  decide
+
+/-! What the fix of D6 changes inside the firing step itself (only possible in layouts with an absorbing mapping
+that is not key-producing): `[LEFTSHIFT, C] → [LEFTALT] absorbing LEFTSHIFT` is in effect (C still held) when
+`[A, LEFTCTRL] → [] absorbing A` fires under the other trigger LEFTCTRL.  The absorbed LEFTSHIFT is let go now, which
+ends the `C` chord that requires it: the step's events are `[A↑, LEFTALT↑]` (before the fix: `[A↑]`, LEFTALT stayed
+down and LEFTSHIFT stayed in `mapped_absorbed_keys` under the overwritten trigger). -/
+example :
+    let L : Layout := [⟨[42, 46], [56], Repeat.normal, [42]⟩, ⟨[30, 29], [], Repeat.normal, [30]⟩]
+    let r := run L State.init [Event.pressed 42, Event.pressed 30, Event.pressed 46, Event.pressed 29]
+    r.2.map (·.events) =
+      [[Event.pressed 42], [Event.pressed 30], [Event.released 42, Event.pressed 56],
+       [Event.released 30, Event.released 56]] ∧
+    r.1.absorbed = [30] ∧ r.1.absTrig = some 29 ∧ r.1.inp = [30, 46, 29] := by
   decide
 
 def d7Layout : Layout :=
@@ -1070,13 +1180,6 @@ theorem C08_d7_fixed :
     (step d7Layout y.x.s (Event.pressed 42)).2.events =
       [Event.released 30, Event.pressed 44, Event.pressed 29] := by
   decide
-
-/-- the full statement (every layout) is still false: finding D6 is a different defect and is not fixed -/
-theorem C08_statement_false : ¬ C08_statement := by
-  intro h
-  have := h d6Layout _ ⟨d6History, rfl⟩ (Event.pressed 29)
-  rw [C08_counterexample_D6.2.1] at this
-  simp at this
 
 /-! Non-vacuity of the partial theorem: unit-test layout `absorbing_double_press_test_1`
 (`[LEFTSHIFT,A]→[LEFTSHIFT,A]`, `[LEFTSHIFT,B]→[LEFTSHIFT,B]`, both absorbing LEFTSHIFT; H1 ∧ H2 hold):
